@@ -183,8 +183,18 @@ pub fn run(tier: &str, s10_selftest: Result<(), String>) -> i32 {
                 }
             }
         }
-        // (7) read-only opens
-        for (iname, img) in [("clean", im.clean.clone()), ("dirty", im.dirty.clone())] {
+        // (7) read-only opens: the clean and the dirty image, and the clean image with every other
+        // value of the god byte (primary-slot bit, recovery bit, 2-phase-commit bit: the header
+        // states in which open has something to reconcile)
+        let mut ro_images: Vec<(String, Vec<u8>)> = vec![("clean".into(), im.clean.clone()), ("dirty".into(), im.dirty.clone())];
+        for v in 0..=255u8 {
+            if im.clean[9] != v {
+                let mut img = im.clean.clone();
+                img[9] = v;
+                ro_images.push((format!("god-byte-{v:#04x}"), img));
+            }
+        }
+        for (iname, img) in ro_images {
             let cfg = im.cfg;
             jobs.push((
                 format!("read-only/{iname}"),
@@ -370,7 +380,7 @@ pub fn run(tier: &str, s10_selftest: Result<(), String>) -> i32 {
             Err(e) => rep.machinery_errors.push(e),
         }
     }
-    rep.cov("rule", json!("the monitor (bounds of every read/write against the current length, no call after close, close exactly once per backend, read-only means len/read/close only) is evaluated on every dedicated case: every bit of the magic number flipped, wrong page size, every byte of the geometry/layout fields altered three ways, files truncated to every listed length, repair aborted at each callback invocation, an I/O error at EVERY call index of open on a clean and on a crash image in both failure modes, read-only opens of a clean and a dirty image through the real ReadOnlyDatabase path, a Database dropped while a write transaction and a reader are alive (6 endings), plus every operation sequence of depth 2 (thorough: 4) of the ownership profile, plus scenario S10 under the controlled scheduler (drop(Database) on one thread, a live read transaction reading on another, backend calls are scheduling points; all schedules with at most 1 (thorough: 2) preemptions); distinct = distinct (family, outcome) classes"));
+    rep.cov("rule", json!("the monitor (bounds of every read/write against the current length, no call after close, close exactly once per backend, read-only means len/read/close only) is evaluated on every dedicated case: every bit of the magic number flipped, wrong page size, every byte of the geometry/layout fields altered three ways, files truncated to every listed length, repair aborted at each callback invocation, an I/O error at EVERY call index of open on a clean and on a crash image in both failure modes, read-only opens of a clean image, a dirty image and the clean image with every other value of the god byte through the real ReadOnlyDatabase path, a Database dropped while a write transaction and a reader are alive (6 endings), plus every operation sequence of depth 2 (thorough: 4) of the ownership profile, plus scenario S10 under the controlled scheduler (drop(Database) on one thread, a live read transaction reading on another, backend calls are scheduling points; all schedules with at most 1 (thorough: 2) preemptions); distinct = distinct (family, outcome) classes"));
     rep.cov("dedicated_cases", json!(acc.cases));
     rep.add_count("evaluations", acc.cases);
     rep.add_count("states", acc.cases);
